@@ -565,7 +565,11 @@ pub(crate) async fn get_one_term(
             prefix: PREFIX_DEFAULT.to_string(),
             hash: term.hash.into(),
         };
-        cache.put(&key, &fetch_term.range, &chunk_byte_indices, &data)?;
+        // a failed cache write must not fail the download (cache reads already ignore errors);
+        // concurrent puts of overlapping ranges of one xorb can fail with IO NotFound
+        let _ = cache
+            .put(&key, &fetch_term.range, &chunk_byte_indices, &data)
+            .log_error("cache put error");
     }
 
     // if the requested range is smaller than the fetched range, trim it down to the right data
